@@ -1,0 +1,9 @@
+//go:build verif
+
+package routing
+
+// Hook for the out-of-tree verification harness (build tag verif), add-only.
+
+// VerifCloseAgents closes the AgentManager (Core.Close does not), so that a closed Core is not
+// kept alive by the manager's handler goroutine when the harness creates hundreds of Cores.
+func (c *Core) VerifCloseAgents() { _ = c.agentManager.Close() }
